@@ -11,8 +11,18 @@ fn parse_json(s: &str) -> Value {
     let s2 = s.to_string();
     match catch_unwind(move || XPath::parse(&s2)) {
         Err(_) => json!("panic"),
-        Ok(Err(_)) => Value::Null,
-        Ok(Ok(p)) => json!({"path": p.to_string_lossy(), "segments": p.segments()}),
+        Ok(Err(_)) => match <XPath as std::str::FromStr>::from_str(s) {
+            Err(_) => Value::Null,
+            Ok(q) => json!({"from_str-accepts": {"path": q.to_string_lossy(), "segments": q.segments()}}),
+        },
+        Ok(Ok(p)) => {
+            // the other public way in (`FromStr`) must give the same path
+            match <XPath as std::str::FromStr>::from_str(s) {
+                Ok(q) if q == p && q.segments() == p.segments() => json!({"path": p.to_string_lossy(), "segments": p.segments()}),
+                Ok(q) => json!({"from_str-differs": {"path": q.to_string_lossy(), "segments": q.segments()}}),
+                Err(_) => json!({"from_str-rejects": s}),
+            }
+        }
     }
 }
 
@@ -154,6 +164,31 @@ pub fn gen(tier: &str, seed: u64, out: &mut dyn FnMut(Value)) {
             b2[i] = if body[i] == 'q' { 'r' } else { 'q' };
             let q: String = std::iter::once('.').chain(b2.iter().cloned()).collect();
             out(json!({"op": "xpath_pair", "a": p, "b": q, "tag": "pair: one character apart", "nt": true}));
+        }
+    }
+    // two texts of the same length that differ in two neighbouring characters by (-1, +m) or (+1, -m): what collides under
+    // a polynomial fingerprint `h * m + byte` (paths are equal exactly when their texts are, whatever a hash says)
+    {
+        let ok = |c: u8| c.is_ascii_alphanumeric() || c == b'_' || c == b'-';
+        for base in [".data.md5", ".info.10.name", ".Af", ".a-R", ".proc.exe0", ".n5d.q7"] {
+            let b = base.as_bytes();
+            for i in 1..b.len() - 1 {
+                if !ok(b[i]) || !ok(b[i + 1]) {
+                    continue;
+                }
+                for m in 2i32..=64 {
+                    for (d1, d2) in [(-1i32, m), (1, -m)] {
+                        let c1 = b[i] as i32 + d1;
+                        let c2 = b[i + 1] as i32 + d2;
+                        if (0..128).contains(&c1) && (0..128).contains(&c2) && ok(c1 as u8) && ok(c2 as u8) {
+                            let mut v = b.to_vec();
+                            v[i] = c1 as u8;
+                            v[i + 1] = c2 as u8;
+                            out(json!({"op": "xpath_pair", "a": base, "b": String::from_utf8(v).unwrap(), "tag": "pair: two neighbouring characters apart", "nt": true}));
+                        }
+                    }
+                }
+            }
         }
     }
     // the same segments spelled with the quotes elsewhere: equal segment lists, equal text lengths, different texts
